@@ -59,6 +59,10 @@ def check(prog, run):
 def _contains_componentwise_abs(prog, fi, e, params):
     """does e contain abs(<expression of a parameter>) outside any reducing call?"""
     def rec(n, reduced):
+        if isinstance(n, ast.Attribute) and n.attr in ("shape", "ndim", "size", "dtype"):
+            return False        # only the extent / type of the array is used, not its values
+        if isinstance(n, ast.Call) and isinstance(n.func, ast.Name) and n.func.id == "len":
+            return False
         if isinstance(n, ast.Call):
             nm = astq.callee_name(prog, fi, n)
             if nm in REDUCERS:
@@ -262,6 +266,18 @@ def mac_shape(prog, run, fi):
                 l_, r_ = bc(den.left), bc(den.right)
                 if l_ and r_ and {l_[1], r_[1]} == {"col", "row"}:
                     u, v = (l_[0], r_[0]) if l_[1] == "col" else (r_[0], l_[0])
+            if u is None:
+                # nested comprehension: np.array([[f(x, a) for a in <second set>] for x in <first set>]) - entry [i][j] pairs the i-th
+                # element of the OUTER iteration with the j-th of the inner one (a reshape to the product's shape keeps that)
+                d2 = den
+                while isinstance(d2, ast.Call) and isinstance(d2.func, ast.Attribute) and d2.func.attr in ("reshape", "astype", "copy") :
+                    d2 = d2.func.value
+                if isinstance(d2, ast.Call) and astq.callee_name(prog, fi, d2) in ("numpy.array", "numpy.asarray") and d2.args:
+                    d2 = d2.args[0]
+                if isinstance(d2, ast.ListComp) and len(d2.generators) == 1 and isinstance(d2.elt, ast.ListComp) and len(d2.elt.generators) == 1:
+                    u, v = d2.generators[0].iter, d2.elt.generators[0].iter
+                elif isinstance(d2, ast.ListComp) and len(d2.generators) == 2:
+                    u, v = d2.generators[0].iter, d2.generators[1].iter
             if u is None:
                 continue
             vec += 1
